@@ -352,13 +352,13 @@ func runEpisode(cfg epCfg) (ep *epResult) {
 				}
 			}
 
-			var pool *readPool
-			verifsim.Go("S>pool", func() {
-				globalReadPoolOnce.Do(func() {})
-				pool = newReadPool(2)
-				globalReadPool = pool
-			})
-			synctest.Wait()
+			// the sender's read pool: created here under a name of node S so that its
+			// workers belong to the sender process
+			verifsim.SetName("S>pool")
+			globalReadPoolOnce.Do(func() {})
+			pool := newReadPool(2)
+			globalReadPool = pool
+			verifsim.SetName("main")
 
 			sOpts := Options{ChunkSize: sp.Chunk, ParallelFiles: sp.Streams, Resume: sp.ResumeS, HashAlg: sp.Hash, ResolveFilePath: resolver, StripeMax: nconns}
 			rOpts := Options{Resume: sp.ResumeR, NoRootDir: sp.NoRoot, HashAlg: sp.Hash, ParallelFiles: sp.RecvStreams}
